@@ -12,6 +12,7 @@ import (
 
 	"verif/tools/internal/core"
 	"verif/tools/internal/ssax"
+	"verif/tools/internal/tables"
 )
 
 // Ob is one obligation, aggregated over all contexts in which it was met.
@@ -76,6 +77,9 @@ type Config struct {
 	// when a path never wrote it; joins complete missing cells with it.
 	GhostDefault func(obj, field string) (AVal, bool)
 	ResultCap    int // outcomes of an inlined callee kept apart before coarse merging (default K)
+	// Closed gives the value of a package-level variable whose initialiser is closed
+	// (evaluated by the E2 closed evaluator); see closed.go.
+	Closed func(name string) (tables.Val, bool)
 }
 
 type Frame struct {
@@ -133,6 +137,10 @@ type Engine struct {
 	unkCtr  int
 	Inlined int
 	Loops   []LoopInfo
+
+	closedCache map[string]closedEntry
+	closedNames map[string]*tables.Slice
+	localTabs   map[*ssa.Alloc]int
 }
 
 func NewEngine(p *core.Program, cfg Config) *Engine {
